@@ -730,6 +730,10 @@ class EPRSocket(abc.ABC):
         self,
         number: int = 1,
         expect_phi_plus: bool = True,
+        basis_local: Optional[EprMeasBasis] = None,
+        basis_remote: Optional[EprMeasBasis] = None,
+        rotations_local: Tuple[int, int, int] = (0, 0, 0),
+        rotations_remote: Tuple[int, int, int] = (0, 0, 0),
     ) -> List[EprMeasureResult]:
         """Ask the network stack to wait for the remote node to generate EPR pairs,
         which are immediately measured (on both nodes).
@@ -745,10 +749,24 @@ class EPRSocket(abc.ABC):
             will make sure that if the physical link actually produced another Bell
             state, the behavior seen by the application is still as if a Phi+ state
             was actually produced.
+        :param basis_local: basis in which the qubit on *this* node is measured, i.e.
+            the `basis_remote` of the matching `create_measure`. The link layer does
+            not report the measurement bases to the receiving application, and the
+            post-processing done for `expect_phi_plus` depends on them, so they must
+            be given here when they are not the Z basis (the default).
+        :param basis_remote: basis in which the qubit on the initiating node is
+            measured, i.e. the `basis_local` of the matching `create_measure`.
+        :param rotations_local: like `basis_local`, as rotations (see `create_measure`)
+        :param rotations_remote: like `basis_remote`, as rotations
         :return: list of entanglement info objects per created pair.
         """
         if self.conn is None:
             raise RuntimeError("EPRSocket does not have an open connection")
+
+        if basis_local is not None:
+            rotations_local = basis_to_rotation(basis_local)
+        if basis_remote is not None:
+            rotations_remote = basis_to_rotation(basis_remote)
 
         return self.conn.builder.sdk_recv_epr_measure(
             params=EntRequestParams(
@@ -758,6 +776,8 @@ class EPRSocket(abc.ABC):
                 expect_phi_plus=expect_phi_plus,
                 post_routine=None,
                 sequential=False,
+                rotations_local=rotations_local,
+                rotations_remote=rotations_remote,
             ),
         )
 
